@@ -257,3 +257,11 @@ def run(ck):
                 wit = rest
         ck.ob('C14.timeout', 'C14.timeout/reset-on-every-exit#%d' % (n_ + 1), wit is None, rh.loc(a),
               'after read_handshake_payload arms the receive timeout, every return resets it to zero (an accepted session must not inherit the 2 s handshake timeout)', wit)
+    # ... and the timeout stays armed for the whole handshake read: no reset is followed by another blocking read of the handshake
+    from sa.paths import reaches as _reaches
+    recvs_ = [i for i in rh.walk() if (rh.nodes[i].get('callee') or '').endswith('recv_all')]
+    ck.floor('C14.timeout', 'blocking reads in read_handshake_payload', len(recvs_), 2)
+    early = [(r_, c_) for r_ in sorted(releases) for c_ in recvs_ if r_ in rh.nodes.keys() if False] if isinstance(rh.nodes, dict) else \
+        [(r_, c_) for r_ in sorted(releases) for c_ in recvs_ if _reaches(rh, r_, c_)]
+    ck.ob('C14.timeout', 'C14.timeout/armed-for-every-read', not early, rh.loc(early[0][0]) if early else rh.loc(),
+          'no path resets the receive timeout and then blocks in another read of the handshake (a silent client must not park the accept thread)')
